@@ -1235,6 +1235,37 @@ class Interp:
                         else:
                             outs.append(Out('val', UNIT, s))
                 return outs
+        if cal.rsplit('::', 1)[-1] in ('extend', 'append', 'extend_from_slice') and 'alloc::vec::Vec' in cal and len(e['args']) == 1 \
+                and hirq.peel_refs(e['recv'])['k'] == 'Field' and hirq.strip_refs(e['recv'].get('ty') or '').startswith('alloc::vec::Vec<') \
+                and hirq.strip_refs(e['args'][0].get('ty') or '').startswith(('alloc::vec::Vec<', '[')):
+            # place.extend(list) / place.append(&mut list) / place.extend_from_slice(list) on a Vec stored in a field: afterwards the
+            # place holds its old elements followed by the elements of the argument, in order - for every receiver and argument
+            # (std: "extends a collection with the contents of an iterator", a Vec / slice iterates its elements front to back;
+            # `append` moves all elements of the other vector to the end and leaves the other vector empty).  The call event is
+            # recorded exactly as for an unmodelled call (receiver's old value, argument); the heap learns the new value and an
+            # ('update', place, new value, node) event says when (not a 'store' event: nothing is assigned to the place).
+            recv = hirq.peel_refs(e['recv'])
+            res, abn = self.seq([recv['e'], e['args'][0]], st)
+            outs = list(abn)
+            for (base, arg), s in res:
+                place = ('field', base, recv['name'])
+                old = self.read_field(base, recv['name'], s)
+                for o in self.call(cal, [old, arg], e, s):
+                    if o.kind == 'val':
+                        s2 = o.st.store(place, ('concat', old, arg)).event(('update', place, ('concat', old, arg), e))
+                        src = hirq.peel_refs(e['args'][0])
+                        if cal.rsplit('::', 1)[-1] == 'append':
+                            empty = ('default', hirq.strip_refs(e['args'][0].get('ty') or ''))
+                            if src['k'] == 'Field':
+                                for o3 in self.ev(src['e'], s):
+                                    if o3.kind == 'val':
+                                        s2 = s2.store(('field', o3.val, src['name']), empty)
+                            elif src['k'] == 'Path' and src.get('res') == 'local' and src['bind'] in s2.env:
+                                s2 = s2.set(src['bind'], empty)
+                        outs.append(Out('val', o.val, s2))
+                    else:
+                        outs.append(o)
+            return outs
         if cal.endswith('::copy_from_slice') and len(e['args']) == 1:
             # dst[a..b].copy_from_slice(src) on a local byte array whose content is literal: evaluated exactly
             recv = hirq.peel_refs(e['recv'])
@@ -1865,6 +1896,13 @@ def builtin_summary(I, cal, args, node, st):
             if t and a[0] == 'is' and a[1] == v:
                 return [Out('val', ('discr', a[2]), st)]
         return [Out('val', ('call', cal, tuple(args), None), st)]
+    if cal in ('core::convert::Into::into', '<T as core::convert::Into<U>>::into') and len(args) == 1 and node.get('k') == 'MethodCall' and node.get('inst') == '<T as core::convert::Into<U>>::into':
+        # `x.into()` through std's blanket impl (`impl<T, U: From<T>> Into<U> for T { fn into(self) -> U { U::from(self) } }`) is
+        # `U::from(x)` for every x: where that From impl is a function of the workspace the call is a call of it - a real
+        # conversion with a body of its own, not a transparent wrapper (Tag -> LdapResult decodes a protocolOp).
+        target = '<%s as core::convert::From<%s>>::from' % (node.get('ty'), node['recv'].get('ty'))
+        if target in I.facts.hir:
+            return I.call(target, args, node, st)
     if hirq.is_transparent(cal) and args:
         if name == 'clone' and node.get('k') == 'MethodCall' and hirq.strip_refs(node['recv'].get('ty', '')).startswith('ldap3::') \
                 and hirq.strip_refs(node['recv'].get('ty', '')).split('<')[0] in ('ldap3::ldap::Ldap',):
